@@ -198,6 +198,9 @@ def match_link_image(string, offset, delimiter, root=None):
             match.label = match_info[2]
             match.dest_type = "full"
             return match
+        if result is False:
+            # followed by a link label that matches no definition: not a link at all
+            return None
         ref = get_link_label(text, root)
         if ref:
             # compact (collapsed) footnote link: [dest][]
@@ -211,7 +214,7 @@ def match_link_image(string, offset, delimiter, root=None):
                 match.type = 'Link' if not image else 'Image'
                 match.dest_type = "collapsed"
                 return match
-        return None
+        # what follows is not a link label: the bracket does not prevent a shortcut link
     # shortcut footnote link: [dest]
     ref = get_link_label(text, root)
     if ref:
@@ -310,8 +313,10 @@ def match_link_label(string, offset, root=None):
                 ref = root.footnotes.get(normalize_label(label), None)
                 if ref is not None:
                     return match_info, ref
-                return None
-            return None
+                # a link label, but not a defined one
+                return False
+            # "[]" leaves the decision to the caller; blank content is treated like an undefined label
+            return None if label == '' else False
         elif escaped:
             escaped = False
     return None
